@@ -278,7 +278,7 @@ impl<'a> ArxmlParser<'a> {
         }
     }
 
-    fn next<'b>(&mut self, lexer: &'b mut ArxmlLexer) -> Result<ArxmlEvent<'b>, AutosarDataError> {
+    fn next<'b>(&mut self, lexer: &mut ArxmlLexer<'b>) -> Result<ArxmlEvent<'b>, AutosarDataError> {
         let (line, event) = lexer.next()?;
         self.line = line;
         Ok(event)
@@ -456,6 +456,10 @@ impl<'a> ArxmlParser<'a> {
         let mut short_name_found = false;
 
         let mut stored_comment = None;
+        // the character data of an element can arrive in several pieces, if there is a comment inside it
+        let mut has_text = false;
+        let mut first_text: &[u8] = &[];
+        let mut joined_text: Vec<u8> = Vec::new();
         loop {
             // track the current element name in the parser for error messages - set this in every loop iteration, since it gets overwritten during the recursive calls
             self.current_element = element.elemname;
@@ -510,6 +514,16 @@ impl<'a> ArxmlParser<'a> {
                 ArxmlEvent::EndElement(elem_text) => {
                     if let Ok(name) = ElementName::from_bytes(elem_text) {
                         if name == element.elemname {
+                            if let (true, Some(character_data_spec)) = (has_text, element.elemtype.chardata_spec()) {
+                                let text_content = if joined_text.is_empty() { first_text } else { &joined_text };
+                                let value = self.parse_character_data(text_content, character_data_spec)?;
+                                if element.elemtype.is_ref() {
+                                    if let CharacterData::String(refpath) = &value {
+                                        self.references.push((refpath.to_owned(), wrapped_element.downgrade()));
+                                    }
+                                }
+                                element.content.push(ElementContent::CharacterData(value));
+                            }
                             break;
                         }
                         return Err(self.error(ArxmlParserError::IncorrectEndElement {
@@ -524,13 +538,22 @@ impl<'a> ArxmlParser<'a> {
                 }
                 ArxmlEvent::Characters(text_content) => {
                     if let Some(character_data_spec) = element.elemtype.chardata_spec() {
-                        let value = self.parse_character_data(text_content, character_data_spec)?;
-                        if element.elemtype.is_ref() {
-                            if let CharacterData::String(refpath) = &value {
-                                self.references.push((refpath.to_owned(), wrapped_element.downgrade()));
+                        if element.elemtype.content_mode() == ContentMode::Characters {
+                            // an element of this kind has one value, which a comment inside it does not split:
+                            // the pieces are collected and the value is parsed when the element ends
+                            if !has_text {
+                                first_text = text_content;
+                                has_text = true;
+                            } else {
+                                if joined_text.is_empty() {
+                                    joined_text.extend_from_slice(first_text);
+                                }
+                                joined_text.extend_from_slice(text_content);
                             }
+                        } else {
+                            let value = self.parse_character_data(text_content, character_data_spec)?;
+                            element.content.push(ElementContent::CharacterData(value));
                         }
-                        element.content.push(ElementContent::CharacterData(value));
                     } else {
                         self.optional_error(ArxmlParserError::CharacterContentForbidden {
                             element: element.elemname,
